@@ -16,6 +16,13 @@ def run(ctx, R, tier):
     clamps(F, R)
     zero_div(F, R)
     delay_scratch(F, R)
+    # 'when set fully dry': the effect runs with the mix (and every other setting) it was configured with
+    from .c02 import setters
+    setters(F, R, rule='B.C13.setter', fn_filter=lambda q: q.startswith('effect::'), floor=20)
+    from .c06 import config_verbatim
+    config_verbatim(F, R, rule='B.C13.config', fn_filter=lambda q: q.startswith('effect::') or '<effect::' in q, floor=20)
+    from .c17 import value_constructors
+    value_constructors(F, R, rule='B.C13.link')
     from .c02 import nested_slices
     R.floor('B.C13.slice', nested_slices(F, R, rule='B.C13.slice'), 1)
     # 'independent of how the input is split into process calls': a tweened parameter is read per frame with
